@@ -183,8 +183,8 @@ def execute(G, c, slow=False):
     calls = [p[1] for p in plan if p[0] == "req"]
     # calls that are *expected* to time out (reject-only injections, lost probe) make a short timeout attractive; every other
     # case gets a generous one, and a short-timeout case that fails on a timeout is re-run slowly before it is reported
-    needs_timeout = bool(c.get("lost_probe")) or any(r.get("only") and r.get("inject") for r in c["reqs"])
-    kw = {"timeout": (1.0 if slow else 0.15) if needs_timeout else 3.0, "session_kw": {}}
+    needs_timeout = uses_short_timeout(c)
+    kw = {"timeout": (2.5 if slow else 0.15) if needs_timeout else 3.0, "session_kw": {}}
     if c["mode"] == "with":
         kw["use_with"] = True
         run_calls = calls
@@ -222,6 +222,24 @@ def execute(G, c, slow=False):
             sig = "foreign-engine-reply-delivered" if (o.kind == "ok" and "666" in repr(o.value)) else "request-failed"
             raise core.Failure(sig, "%s: request #%d (%s) gave %r, expected value %d" % (info, k, req_plan[k][0][0], o, want))
     return st["i"], seen["widths"]
+
+
+def uses_short_timeout(c):
+    return bool(c.get("lost_probe")) or any(r.get("only") and r.get("inject") for r in c["reqs"])
+
+
+def execute_confirmed(G, c, rep=None):
+    """execute(), and - for the cases that run with the short session timeout because they contain calls that are expected
+    to time out - a second, slow run before any failure is believed: on a loaded machine a genuine reply can miss a 0.15 s
+    timeout, after which the session legitimately keeps its older view and every later message looks wrong to the model."""
+    try:
+        return execute(G, c)
+    except core.Failure:
+        if not uses_short_timeout(c):
+            raise
+        if rep is not None:
+            rep.count("short_timeout_failures_rerun_slowly")
+        return execute(G, c, slow=True)
 
 
 def run_with_user(G, c, hl_cfg, E, run_calls, handler, kw):
@@ -269,14 +287,7 @@ def run(rep, tier):
     rep.assumptions = ["keys of type 'localized' are derived by the caller for the agent's engine id", "reference crypto refusm.py"]
 
     def body(c):
-        try:
-            nmsg, widths = execute(G, c)
-        except core.Failure as f:
-            if "TimeoutError" in f.message and f.signature in ("request-failed", "message-count", "refresh-failed", "lost-probe-outcome"):
-                rep.count("timing_suspects_rerun_slowly")
-                nmsg, widths = execute(G, c, slow=True)
-            else:
-                raise
+        nmsg, widths = execute_confirmed(G, c, rep)
         nt = c["discovered"] and len(c["reqs"]) >= 2
         rep.case(repr(describe(c)), nt,
                  sample={"cfg": c["cfg"].describe(), "engine": c["engine"].hex(), "discovered": c["discovered"], "mode": c["mode"],
@@ -298,6 +309,6 @@ def replay(rep, case, body=None):
     c["cfg"] = gen.cfg_from_json(case["_cfg"])
     c["times"] = [tuple(t) for t in case["times"]]
     try:
-        execute(G, c)
+        execute_confirmed(G, c)
     except core.Failure as f:
         rep.violation(f.signature, case, f.message)
